@@ -8,6 +8,7 @@ import (
 	"sort"
 	"strings"
 
+	"foxverif/conc"
 	"foxverif/gen"
 	"foxverif/kit"
 	"foxverif/ref"
@@ -93,7 +94,13 @@ func main() {
 			check(run, c)
 		}
 	})
+	// while transactions change which methods serve a path, every 404/405/OPTIONS answer is the one of a single
+	// committed state (the request's own lookup and the probing of the other methods use the same tree)
+	conc.AllowFlip(run)
+	conc.MethodFlip(run)
 }
+
+// (the answer of one unserved request comes from one routing state: see conc.AllowFlip / conc.MethodFlip, run from main)
 
 func filter(in []string, drop ...string) []string {
 	var out []string
